@@ -35,6 +35,7 @@ type selMonitor struct {
 	// priorities) when the pair was first seen. A pair whose peer-reflexive remote is later superseded by a
 	// signalled candidate keeps its id and, as documented (C06), its priority.
 	firstPrio map[uint64]*big.Int
+	firstGD   map[uint64][2]uint32
 }
 
 // observe records the reference priority of pairs seen for the first time.
@@ -46,12 +47,24 @@ func (m *selMonitor) observe() {
 		for _, p := range m.ag.a.checklist {
 			if _, ok := m.firstPrio[p.id]; !ok {
 				m.firstPrio[p.id] = refPairPriority(p, p.iceRoleControlling)
+				if m.firstGD == nil {
+					m.firstGD = map[uint64][2]uint32{}
+				}
+				m.firstGD[p.id] = [2]uint32{p.Local.Priority(), p.Remote.Priority()}
 			}
 		}
 	})
 }
 
 func (m *selMonitor) prioOf(p *CandidatePair) *big.Int {
+	// (a role switch re-ranks every pair: the candidates' priorities seen first, under the agent's current role)
+	if gd, ok := m.firstGD[p.id]; ok {
+		if m.ag.a.isControlling.Load() {
+			return c17RefPair(gd[0], gd[1])
+		}
+
+		return c17RefPair(gd[1], gd[0])
+	}
 	if v, ok := m.firstPrio[p.id]; ok {
 		return v
 	}
@@ -486,7 +499,7 @@ func TestVerif_C03_MisbehavingPeer(t *testing.T) {
 				}
 				_ = s.ag.a.SetRemoteCredentials(s.peer.ufrag, s.peer.pwd)
 				mon.logFrom = s.w.logLen()
-				mon.last, mon.lastKey, mon.firstPrio = nil, pairKey(nil), nil
+				mon.last, mon.lastKey, mon.firstPrio, mon.firstGD = nil, pairKey(nil), nil, nil
 				ownSucceeded, useDelivered = map[string]bool{}, map[string]int{}
 				lbl["restart"] = true
 				s.ops = append(s.ops, "restart")
